@@ -4,8 +4,6 @@
 //!       (+ `@…` temporal oracle tokens for the strings among the values, as in the value stream)
 //!   group <k> <k> …         `UNWIND $xs AS x RETURN x AS k, count(*) AS c`
 //!       -> `<number of result rows>` | sorted `key:count` list
-//!          (`unspec` when the keys contain both +0.0 and -0.0: Eq says equal, Hash differs, HashMap
-//!           behaviour is then not a function of the input)
 use super::{State, StreamDef, no_child};
 use crate::qeng::{ENG, err_class, single};
 use crate::rng::Rng;
@@ -34,21 +32,6 @@ pub const FNS: &[(&str, &str)] = &[
     ("maxd", "max(DISTINCT x)"),
     ("collectd", "collect(DISTINCT x)"),
 ];
-
-fn zero_signs(v: &Value, pos: &mut bool, neg: &mut bool) {
-    match v {
-        Value::Float(f) if *f == 0.0 => {
-            if f.is_sign_negative() {
-                *neg = true
-            } else {
-                *pos = true
-            }
-        }
-        Value::List(xs) => xs.iter().for_each(|x| zero_signs(x, pos, neg)),
-        Value::Map(m) => m.values().for_each(|x| zero_signs(x, pos, neg)),
-        _ => {}
-    }
-}
 
 impl State for S {
     fn step(&mut self, ws: &[&str]) -> String {
@@ -81,11 +64,6 @@ impl State for S {
                         Some(v) => xs.push(v),
                         None => return "bad-op".into(),
                     }
-                }
-                let (mut p, mut n) = (false, false);
-                xs.iter().for_each(|x| zero_signs(x, &mut p, &mut n));
-                if p && n {
-                    return "unspec".into();
                 }
                 match ENG.with(|e| e.run("UNWIND $xs AS x RETURN x AS k, count(*) AS c", &[("xs", Value::List(xs))])) {
                     Ok(rows) => {
@@ -169,6 +147,21 @@ fn generate(rng: &mut Rng, n: usize, tier: &str, out: &mut dyn Write) {
         vec![Value::String("b".into()), Value::String("a".into()), Value::String("b".into())],
         vec![Value::List(vec![Value::Int(1)]), Value::List(vec![Value::Float(1.0)]), Value::List(vec![Value::Int(1)])],
         vec![Value::Float(f64::INFINITY), Value::Float(f64::NEG_INFINITY)],
+        // equal under `==` / Cypher `=` but different bit patterns: signed zeros, alone and nested
+        vec![Value::Float(0.0), Value::Float(-0.0)],
+        vec![Value::Float(-0.0), Value::Float(0.0), Value::Float(3.0)],
+        vec![Value::Float(0.0), Value::Int(0), Value::Float(-0.0)],
+        vec![Value::List(vec![Value::Float(0.0)]), Value::List(vec![Value::Float(-0.0)])],
+        vec![
+            Value::Map([("a".to_string(), Value::Float(-0.0))].into_iter().collect()),
+            Value::Map([("a".to_string(), Value::Float(0.0))].into_iter().collect()),
+            Value::Int(1),
+        ],
+        vec![
+            Value::List(vec![Value::Map([("a".to_string(), Value::Float(0.0))].into_iter().collect())]),
+            Value::List(vec![Value::Map([("a".to_string(), Value::Float(-0.0))].into_iter().collect())]),
+        ],
+        vec![nan.clone(), Value::Float(0.0), Value::Float(-0.0), nan.clone()],
         vec![Value::Float(1e308), Value::Float(1e308)],
     ];
     for g in &groups {
@@ -198,6 +191,13 @@ fn generate(rng: &mut Rng, n: usize, tier: &str, out: &mut dyn Write) {
                 _ => vtok::gen_value(rng, 2),
             })
             .collect();
+        let mut pool = pool;
+        let twin = vtok::gen_near(rng, &pool[0]);
+        pool.push(twin);
+        if rng.chance(1, 3) {
+            pool.push(Value::Float(0.0));
+            pool.push(Value::Float(-0.0));
+        }
         let xs: Vec<Value> = (0..len)
             .map(|_| if rng.chance(1, 8) { Value::Null } else { rng.pick(&pool).clone() })
             .collect();
